@@ -123,8 +123,9 @@ func (p *PKCS7PaddingWriter) Write(buff []byte) (n int, err error) {
 	if p.cache.Len() > p.blockSize {
 		// 把超过一个分组长度的部分读取出来，写入到实际的out中
 		size := p.cache.Len() - p.blockSize
-		_, _ = p.cache.Read(p.swap[:size])
-		_, err = p.out.Write(p.swap[:size])
+		// Next returns the first size bytes of the cache, however many they
+		// are (the fixed 1 KiB swap buffer overflowed for larger writes)
+		_, err = p.out.Write(p.cache.Next(size))
 		if err != nil {
 			return 0, err
 		}
